@@ -14,14 +14,16 @@ Definition rparen : N := 41.
 (* tokens *)
 Inductive tok := TL | TR | TA (s : list N).
 
+Definition flush_atom (cur : list N) : list tok :=
+  match cur with [] => [] | _ => [TA (rev cur)] end.
+(* the pending atom is reversed only when it ends (linear in the line length once extracted) *)
 Fixpoint tokens_aux (cur : list N) (l : list N) : list tok :=
-  let flush := match cur with [] => [] | _ => [TA (rev cur)] end in
   match l with
-  | [] => flush
+  | [] => flush_atom cur
   | c :: r =>
-      if is_space c then flush ++ tokens_aux [] r
-      else if c =? lparen then flush ++ TL :: tokens_aux [] r
-      else if c =? rparen then flush ++ TR :: tokens_aux [] r
+      if is_space c then flush_atom cur ++ tokens_aux [] r
+      else if c =? lparen then flush_atom cur ++ TL :: tokens_aux [] r
+      else if c =? rparen then flush_atom cur ++ TR :: tokens_aux [] r
       else tokens_aux (c :: cur) r
   end.
 Definition tokens (l : list N) : list tok := tokens_aux [] l.
